@@ -64,9 +64,21 @@ def catalogue(cfg):
             f["tie"] = cfg.randrange(64)
             f["partial"] = cfg.randrange(1 << 16)
             f["exc"] = cfg.choice(["message", "noargs", "subclass"])
-            steps.append({"backend": backend, "via": via, "fault": f,
-                          "default": cfg.choice(["none", "sim-api"])})
+            step = {"backend": backend, "via": via, "fault": f, "default": cfg.choice(["none", "sim-api"])}
+            if backend == "highs-wrapper" and via == "property":
+                # two back-ends in one world: what the default solver would do if the code under test turned to it
+                # after HiGHS (it does not today)
+                step["default"] = cfg.choice(["none", "sim-api", "sim-api"])
+                step["default_fault"] = second_choice_fault(cfg)
+            steps.append(step)
     return steps
+
+
+def second_choice_fault(r):
+    kind = r.choice(["ok", "ok", "raise_before", "status_notsolved", "status_infeasible", "status_unbounded",
+                     "status_undefined"])
+    return {"kind": kind, "assign": r.choice(API_ASSIGN), "tie": r.randrange(64), "partial": r.randrange(1 << 16),
+            "exc": r.choice(["message", "noargs", "subclass"])}
 
 
 def gen_run(seed, tier, i):
@@ -138,6 +150,8 @@ def gen_run(seed, tier, i):
             fault["assign"] = s_fault.choice(API_ASSIGN)
         step = {"triples": st["triples"], "op": op, "via": via, "backend": backend,
                 "fault": fault, "default": s_cfg.choice(["none", "sim-api"])}
+        if backend == "highs-wrapper":
+            step["default_fault"] = second_choice_fault(s_fault)
         if op == "mapping_extract" and s_ops.random() < 0.6:
             op = step["op"] = "mapping_dot_bracket"  # the full entry point is ~50x dearer: keep it rare
         if op.startswith("mapping_"):
